@@ -1,4 +1,145 @@
-import PoetryVerif.Model.VRange
+/-
+C05 — Constraint intersection, union and difference are exact set operations.
+Property theorems only (helper lemmas live in Proofs/VRange*.lean).  Vocabulary:
+`Regular B p` (the probe is equal to, or of a different release than, every bound in `B`),
+`RC.WF` / `VRange.WF` (well-formed bounds, strictly ordered ends), `VC.allowsPlain` (membership as the
+disjunction over the member ranges; equal to `VC.allows` for every non-union constraint).
+-/
+import PoetryVerif.Proofs.VRangeOps
+
+set_option linter.unusedSimpArgs false
+set_option linter.unusedVariables false
+
 namespace Poetry.C05
-theorem placeholder : True := trivial
+open Poetry Version
+
+/-! ## the semantic bridge -/
+
+/-- **Bridge**: on a well-formed probe that is regular for the bounds, the real `VersionRange.allows`
+(with its post-release / local-label / `allowed_max` adjustments) is plain interval membership over the
+effective endpoints. -/
+theorem range_allows_iff_interval (r : VRange) (p : Version) (hr : r.wfB) (hp : p.wf = true)
+    (hreg : Regular r.bounds p) : r.allows p = true ↔ r.den p :=
+  VRange.allows_iff_den r p hr hp hreg
+
+/-- the same for `Version | VersionRange` members, over the written endpoints -/
+theorem member_allows_iff_interval (c : RC) (p : Version) (hc : c.wfB) (hp : p.wf = true)
+    (hreg : Regular c.bounds p) : c.allows p = true ↔ c.sem p :=
+  RC.allows_iff_sem c p hc hp hreg
+
+/-- for every constraint that is not a union, `allows` never raises and is `allowsPlain` -/
+theorem allows_eq_plain_of_not_union (c : VC) (p : Version) (h : ∀ rs, c ≠ .union rs) :
+    c.allows p = .ok (c.allowsPlain p) := by
+  cases c with
+  | empty => rfl
+  | single c => simp [VC.allows, VC.allowsPlain, VC.flatten]
+  | union rs => exact absurd rfl (h rs)
+
+/-! ## intersection, range level -/
+
+/-- **range ∩ range is defined and exact.**  For well-formed ranges the two `assert`s of
+`VersionRange.intersect` never fire, the result is empty, a version or a well-formed range, and it admits a
+regular probe exactly when both operands do. -/
+theorem range_intersect_exact (a b : VRange) (ha : a.WF) (hb : b.WF) :
+    ∃ r, RC.rngIntersectRng a b = .ok r ∧
+      ∀ p, p.wf = true → Regular (a.bounds ++ b.bounds) p →
+        r.allows p = .ok (a.allows p && b.allows p) :=
+  VRange.intersect_exact a b ha hb
+
+def exA : VRange := ⟨some (Version.mk' 0 [1, 2] none none none none), some (Version.mk' 0 [2] none none none none), true, false⟩
+def exB : VRange := ⟨some (Version.mk' 0 [1, 5] (some ⟨.rc, 1⟩) none none none), none, false, false⟩
+def exP : Version := Version.mk' 0 [1, 7] none (some ⟨.post, 2⟩) none (some ["x"])
+
+example : exA.WF ∧ exB.WF ∧ exP.wf = true ∧ Regular (exA.bounds ++ exB.bounds) exP := by
+  refine ⟨⟨?_, ?_⟩, ⟨?_, ?_⟩, by decide, ?_⟩
+  · intro e he; simp [VRange.bounds, exA] at he; rcases he with rfl | rfl <;> decide
+  · intro m M hm hM; simp [exA] at hm hM; subst hm; subst hM; rw [vk_lt_iff]; decide
+  · intro e he; simp [VRange.bounds, exB] at he; subst he; decide
+  · intro m M hm hM; simp [exB] at hM
+  · intro e he; simp [VRange.bounds, exA, exB] at he; rcases he with rfl | rfl | rfl <;> right <;> decide
+
+/-- **version ∩ version / range ∩ version / range ∩ range** (`a.intersect(b)` for any two non-union
+operands): defined, and exact on regular probes — outside the one branch recorded as known finding
+"local-min-intersect" (a `Version` met with a range whose lower bound is a local build of it). -/
+theorem member_intersect_exact (a b : RC) (ha : a.WF) (hb : b.WF)
+    (hcase : ∀ r x, (a = .rng r ∧ b = .ver x) ∨ (a = .ver x ∧ b = .rng r) → ¬ RC.LocalMinCase r x) :
+    ∃ r, RC.intersect a b = .ok r ∧
+      ∀ p, p.wf = true → Regular (a.bounds ++ b.bounds) p →
+        r.allows p = .ok (a.allows p && b.allows p) :=
+  RC.intersect_exact a b ha hb hcase
+
+/-- the full statement for this case without the carve-out … -/
+def member_intersect_full_statement : Prop :=
+  ∀ a b : RC, a.WF → b.WF → ∃ r, RC.intersect a b = .ok r ∧
+    ∀ p, p.wf = true → Regular (a.bounds ++ b.bounds) p → r.allows p = .ok (a.allows p && b.allows p)
+
+def cexV : Version := Version.mk' 0 [1, 0, 0] none none none none
+def cexR : VRange := ⟨some (Version.mk' 0 [1, 0] none none none (some ["local"])), none, false, false⟩
+def cexP : Version := Version.mk' 0 [1, 0, 0, 1] none none none none
+
+/-- … **is false of model and code** (known finding "local-min-intersect"): `1.0.0 ∩ >1.0+local` is
+`>1.0+local,<1.0.1`, which admits the regular probe `1.0.0.1` that `1.0.0` rejects. -/
+theorem counterexample_local_min_intersect : ¬ member_intersect_full_statement := by
+  intro h
+  obtain ⟨r, hr, hall⟩ := h (.ver cexV) (.rng cexR) (by show cexV.wf = true; decide)
+    ⟨by intro e he; simp [VRange.bounds, cexR] at he; subst he; decide,
+     by intro m M hm hM; simp [cexR] at hM⟩
+  have hreg : Regular ((RC.ver cexV).bounds ++ (RC.rng cexR).bounds) cexP := by
+    intro e he
+    simp [RC.bounds, RC.view, VRange.bounds, RC.min, RC.max, cexR] at he
+    rcases he with rfl | rfl <;> right <;> decide
+  have h1 := hall cexP (by decide) hreg
+  have h2 : RC.rngIntersectVer cexR cexV =
+      .single (.rng ⟨cexR.min, some cexV.stable.nextPatch, false, false⟩) := by decide
+  have h3 : RC.intersect (.ver cexV) (.rng cexR) = .ok (RC.rngIntersectVer cexR cexV) := rfl
+  rw [h3, h2] at hr
+  cases hr
+  simp only [VC.allows, RC.allows, Except.ok.injEq] at h1
+  revert h1
+  decide
+
+/-! ## commutativity, empty and universal operands -/
+
+/-- **intersection is commutative up to admitted versions** (non-union operands) -/
+theorem member_intersect_comm (a b : RC) (ha : a.WF) (hb : b.WF)
+    (hcase : ∀ r x, (a = .rng r ∧ b = .ver x) ∨ (a = .ver x ∧ b = .rng r) → ¬ RC.LocalMinCase r x) :
+    ∃ r r', RC.intersect a b = .ok r ∧ RC.intersect b a = .ok r' ∧
+      ∀ p, p.wf = true → Regular (a.bounds ++ b.bounds) p → r.allows p = r'.allows p := by
+  obtain ⟨r, hr, h⟩ := RC.intersect_exact a b ha hb hcase
+  obtain ⟨r', hr', h'⟩ := RC.intersect_exact b a hb ha
+    (fun r x hx => hcase r x (by rcases hx with hx | hx; exact Or.inr ⟨hx.2, hx.1⟩; exact Or.inl ⟨hx.2, hx.1⟩))
+  refine ⟨r, r', hr, hr', fun p hp hreg => ?_⟩
+  rw [h p hp hreg, h' p hp (fun e he => hreg e (by simp at he ⊢; exact he.symm)), Bool.and_comm]
+
+/-- the empty constraint is absorbing for ∩, neutral for ∪, and `a − ∅ = a`, `∅ − a = ∅` -/
+theorem empty_laws (a : VC) :
+    VC.intersect .empty a = .ok .empty ∧ VC.unionWith .empty a = .ok a ∧
+    VC.difference .empty a = .ok .empty ∧
+    (∀ c, VC.intersect (.single c) .empty = .ok .empty) ∧
+    (∀ r, VC.difference (.single (.rng r)) .empty = .ok (.single (.rng r))) ∧
+    (∀ rs, VC.difference (.union rs) .empty = .ok (.union rs)) ∧
+    (∀ rs, VC.intersect (.union rs) .empty = .ok .empty) := by
+  refine ⟨rfl, rfl, rfl, fun c => rfl, fun r => rfl, fun rs => rfl, fun rs => ?_⟩
+  simp [VC.intersect, VC.flatten, VC.unionIntersectLoop, VC.unionOf, unionOfFlat]
+  cases rs <;> simp [VC.unionIntersectLoop, bind, Except.bind, unionOfFlat]
+
+/-- the universal range is neutral for ∩ on members (up to admitted versions) and admits everything -/
+theorem any_laws (c : RC) (hc : c.WF) :
+    (∀ p, VRange.any.allows p = true) ∧
+    ∃ r, RC.intersect (.rng VRange.any) c = .ok r ∧
+      ∀ p, p.wf = true → Regular c.bounds p → r.allows p = .ok (c.allows p) := by
+  refine ⟨fun p => by simp [VRange.allows, VRange.allowsLo, VRange.allowsHi, VRange.any], ?_⟩
+  have hany : (RC.rng VRange.any).WF :=
+    ⟨by intro e he; simp [VRange.bounds, VRange.any] at he, by intro m M hm; simp [VRange.any] at hm⟩
+  have hnl : ∀ x, ¬ RC.LocalMinCase VRange.any x := by
+    rintro x ⟨_, m, hm, _⟩; simp [VRange.any] at hm
+  obtain ⟨r, hr, h⟩ := RC.intersect_exact (.rng VRange.any) c hany hc (by
+    intro r x hx
+    rcases hx with ⟨h1, _⟩ | ⟨h1, _⟩
+    · cases h1; exact hnl x
+    · cases h1)
+  refine ⟨r, hr, fun p hp hreg => ?_⟩
+  rw [h p hp (hreg.mono (fun e he => by simpa [RC.bounds, VRange.bounds, VRange.any, RC.view, RC.min, RC.max] using he))]
+  simp [RC.allows, VRange.allows, VRange.allowsLo, VRange.allowsHi, VRange.any]
+
 end Poetry.C05
